@@ -111,6 +111,23 @@ def obligations_L(pid):
     return obs
 
 
+def obligations_L_exact(pid):
+    """C01.L (converse, for the tokens whose RFC language is exact): a token of the identifier / tag / number rule is an RFC
+    5228 identifier / tag / number (ABNF literals are case-insensitive, so k m g are quantifiers too) -- the lexer does not
+    invent tokens of these kinds"""
+    obs = []
+    x = z3.String("x")
+    rfc = rfc_tokens()
+    digit = byte(0x30, 0x39)
+    rfc = dict(rfc)
+    rfc["number"] = z3.Concat(z3.Plus(digit), z3.Option(anyof("KMGkmg")))
+    for name, pat, root, info in rules():
+        if name in ("identifier", "tag", "number"):
+            obs.append(_check([z3.InRe(x, rx.lang(root)), z3.Not(z3.InRe(x, rfc[name]))],
+                              "%s.L.lexed-token-is-an-rfc-token.%s" % (pid, name), "the rule %r matches a text that is no RFC 5228 %s" % (pat, name)))
+    return obs
+
+
 def obligations_structure(pid):
     """every alternative of the lexer's combined pattern is exactly one named group (so group(lastgroup) == group(0),
     i.e. the token value yielded is the text consumed) -- checked on the compiled pattern of a real Lexer"""
